@@ -1,15 +1,30 @@
-(* Proofs/LexRender.v - the tokenizer reads back the printer's tokens:
+(* Proofs/LexRender.v - the tokenizer reads back the printer's tokens, at BYTE level:
      spec_tokenize f (render items) = Some (Some ts)  with  map strip ts = toks items ++ [(TEOF, [])].
-   1. cursor states described by the consumed prefix / unread rest of the source ([at_]);
-   2. one lemma per token class about [next_token] over the cursor; the generic theorem [lex_render_generic] for every
-      item list satisfying [lexk] (every token is a well-formed lexeme and does not merge with what follows);
-   3. string literals: [quote_string], [quote_pattern] and quoted plain texts are string lexemes;
-   4. the printer's item lists satisfy [lexk]: values, expressions, policies, documents. *)
+
+   1. cursor states described by the consumed prefix / unread rest of the source ([at_]); one character step ([cstep]);
+   2. lexemes ([lexeme]: identifiers, reserved words, integers, string literals as sequences of [sunit]s, operators),
+      the separation condition [sepb], the type the tokenizer reports ([retype]);
+   3. one lemma per token class about [next_token] over the cursor (ntok_ident / _int / _op / _string / _eof);
+   4. the generic, printer-independent theorems [lex_render_generic] / [lex_render_strict] for every item list satisfying
+      [lexk] (every token is a lexeme, every blank is white space, no token merges with the byte that follows it);
+   5. string literals: [quote_string], [quote_pattern] and quoted plain texts are string lexemes - full UTF-8, for ALL
+      tables is_printable / is_gext (no table hypothesis is needed: scan_string accepts every raw rune that
+      escape_rune can emit);
+   6. the printer's item lists satisfy [lexk]: values, expressions (every constructor), policies, documents:
+        lex_render_expr, lex_render_policy (+ _gen), lex_render_document (+ _gen, _ws).
+      FINDING: the unconditional policy statement is false - annots_ok allows reserved words as annotation keys, which the
+      printer lists as identifier tokens but the tokenizer reports as reserved-word tokens
+      ([lex_render_policy_counterexample]).  Proved: the exact statement when no annotation key is reserved, and the general
+      statement up to [retype];
+   7. positions do not matter to the parser ([p_policies_map] and the [*_map] lemmas: parsing position-erased tokens gives the
+      position-erased result), hence the end-to-end theorems [text_roundtrip_document] and (no side condition, reserved
+      annotation keys included) [text_roundtrip_document_gen]: print to bytes, tokenize, parse = the policies, normalised;
+   8. a sound boolean checker [lexkb] for [lexk] ([lex_render_checked]). *)
 From Coq Require Import ZArith List Bool String Lia Arith.
 Import ListNotations.
 From Cedar Require Import Base.Int64 Base.Utf8 Base.Utf8Enc Lang.Value Impl.Like Lang.Expr Impl.Eval Impl.Text Impl.Decimal Impl.Duration
   Impl.Datetime Impl.Scanner Impl.Tokenizer Lang.Cursor Impl.Quote Impl.Parser Impl.Printer Lang.RoundTrip.
-From Cedar Require Import Proofs.QuoteProofs Proofs.CursorProofs.
+From Cedar Require Import Proofs.QuoteProofs Proofs.CursorProofs Proofs.ParserFuel.
 From Cedar Require Proofs.ParserRoundTrip Proofs.DecimalProofs.
 Local Open Scope Z_scope.
 Local Open Scope list_scope.
@@ -1536,8 +1551,6 @@ Qed.
 (* ------------------------------------------------------------------------------------------------------------- *)
 (* 7. Positions do not matter to the parser                                                                       *)
 (* ------------------------------------------------------------------------------------------------------------- *)
-From Cedar Require Import Proofs.ParserFuel.
-
 (* a token with its position erased *)
 Definition nrm (t : token) : token := mk (strip t).
 
@@ -1770,6 +1783,395 @@ Section TextRoundTrip.
   Qed.
 End TextRoundTrip.
 
+(* ---- the same without the side condition: reserved words as annotation keys ---- *)
+(* the continuation of p_policy after the annotations *)
+Definition pcont (fuel : nat) (first : token) (annots : list (str * str)) (r0 : list token) : pres ppolicy :=
+  let t := peek r0 in
+  let eff := if tx t "permit" then Some true else if tx t "forbid" then Some false else None in
+  match eff with
+  | None => PErr
+  | Some effect =>
+    bexact (adv r0) "(" (fun r1 =>
+    bexact r1 "principal" (fun r2 =>
+    bind (p_scope_pr fuel r2) (fun sp r3 =>
+    bexact r3 "," (fun r4 =>
+    bexact r4 "action" (fun r5 =>
+    bind (p_scope_action fuel r5) (fun sa r6 =>
+    bexact r6 "," (fun r7 =>
+    bexact r7 "resource" (fun r8 =>
+    bind (p_scope_pr fuel r8) (fun sr r9 =>
+    let r10 := if tx (peek r9) "," then adv r9 else r9 in
+    bexact r10 ")" (fun r11 =>
+    bind (p_conditions fuel r11 []) (fun conds r12 =>
+    bexact r12 ";" (fun r13 =>
+    POk {| pp_annots := annots; pp_pos := (t_off first, t_line first, t_col first);
+           pp_policy := {| p_effect := effect; p_principal := sp; p_action := sa; p_resource := sr; p_conds := conds |} |} r13))))))))))))
+  end.
+
+Lemma p_policy_cont : forall f ts, p_policy f ts = bind (p_annotations f ts []) (pcont f (peek ts)).
+Proof. reflexivity. Qed.
+
+Definition set_ann (first : token) (a : list (str * str)) (x : pres ppolicy) : pres ppolicy :=
+  match x with
+  | POk pp r => POk {| pp_annots := a; pp_pos := (t_off first, t_line first, t_col first); pp_policy := pp_policy pp |} r
+  | PErr => PErr | PFuel => PFuel
+  end.
+
+Lemma pcont_annots : forall f first first' a r0, pcont f first a r0 = set_ann first a (pcont f first' [] r0).
+Proof.
+  intros f first first' a r0. unfold pcont, bind, bexact. cbv zeta.
+  repeat match goal with
+         | |- context [if ?c then _ else _] => destruct c
+         | |- context [match ?c with _ => _ end] =>
+             lazymatch c with
+             | (match _ with _ => _ end) => fail
+             | (if _ then _ else _) => fail
+             | _ => destruct c
+             end
+         end; reflexivity.
+Qed.
+
+Lemma p_annotations_none : forall f R acc, tx (peek R) "@" = false -> p_annotations (S f) R acc = POk acc R.
+Proof. intros f R acc H. cbn [p_annotations]. rewrite H. reflexivity. Qed.
+
+Section TextRoundTripGen.
+  Variables (is_printable is_gext : Z -> bool) (set_order : list value -> list nat) (print_ip : bool -> Z -> Z -> str) (extra : expr -> bool).
+  Hypothesis print_ip_plain : forall v6 a p, Forall (fun c => 32 <= c < 127 /\ c <> 34 /\ c <> 92) (print_ip v6 a p).
+
+  Notation PI := (policy_items is_printable is_gext set_order print_ip extra).
+  Notation QS := (quote_string is_printable is_gext).
+
+  Definition key_tok (k : str) : token := mk (retype (TIdent, k)).
+  Definition ann_toks (kv : str * str) : list token :=
+    [mk (TOperator, s_of "@"); key_tok (fst kv); mk (TOperator, s_of "("); mk (TString, QS (snd kv)); mk (TOperator, s_of ")")].
+  Definition AT' (annots : list (str * str)) : list token := flat_map ann_toks annots.
+
+  Lemma policy_items_split : forall annots p,
+    PI annots p = flat_map (fun kv : str * str => [op "@"; T TIdent (fst kv); op "("; str_item is_printable is_gext (snd kv); op ")"; nl]) annots
+                  ++ PI [] p.
+  Proof. reflexivity. Qed.
+
+  Lemma policy_ok_nil : forall annots p, policy_ok set_order annots p = true -> policy_ok set_order [] p = true.
+  Proof.
+    intros annots p H. unfold policy_ok in *.
+    apply andb_true_iff in H. destruct H as [H H5]. apply andb_true_iff in H. destruct H as [H H4].
+    apply andb_true_iff in H. destruct H as [H H3]. apply andb_true_iff in H. destruct H as [_ H2].
+    rewrite H2, H3, H4, H5. reflexivity.
+  Qed.
+
+  Lemma retoks_annots : forall annots,
+    map mk (map retype (toks (flat_map (fun kv : str * str =>
+       [op "@"; T TIdent (fst kv); op "("; str_item is_printable is_gext (snd kv); op ")"; nl]) annots))) = AT' annots.
+  Proof.
+    induction annots as [|kv annots IH]; [reflexivity|]. cbn [flat_map]. rewrite toks_app, !map_app, IH. reflexivity.
+  Qed.
+
+  Lemma retoks_policy : forall annots p, policy_ok set_order annots p = true ->
+    map mk (map retype (toks (PI annots p))) = AT' annots ++ toks_of (PI [] p).
+  Proof.
+    intros annots p Hok. rewrite policy_items_split, toks_app, !map_app, retoks_annots. f_equal.
+    unfold toks_of. f_equal. apply (lexk_strict_retype _ rune_eof).
+    apply (policy_lexk is_printable is_gext set_order print_ip extra print_ip_plain true [] p rune_eof (policy_ok_nil _ _ Hok)).
+    intros _. reflexivity.
+  Qed.
+
+  Lemma adv_cons2 : forall (a b : token) l, adv (a :: b :: l) = b :: l.
+  Proof. reflexivity. Qed.
+
+  Lemma annots_parse : forall annots acc seen R, R <> [] -> tx (peek R) "@" = false ->
+    forallb (fun kv : str * str => str_ok2 (snd kv)) annots = true ->
+    ParserRoundTrip.fresh_keys (map fst annots) seen = true ->
+    (forall k, existsb (fun kv : str * str => str_eqb (fst kv) k) acc = existsb (str_eqb k) seen) ->
+    exists f0, forall f, (f0 <= f)%nat -> p_annotations f (AT' annots ++ R) acc = POk (acc ++ annots) R.
+  Proof.
+    induction annots as [|[k v] annots IH]; intros acc seen R HR Hat Hv Hf Hinv.
+    - exists 1%nat. intros f Hf0. destruct f as [|f]; [lia|]. cbn [AT' flat_map app]. rewrite app_nil_r.
+      apply p_annotations_none. exact Hat.
+    - cbn [forallb snd] in Hv. apply andb_true_iff in Hv. destruct Hv as [Hv1 Hv2].
+      cbn [map fst ParserRoundTrip.fresh_keys] in Hf. apply andb_true_iff in Hf. destruct Hf as [Hf1 Hf2].
+      apply negb_true_iff in Hf1.
+      assert (Hinv' : forall k0, existsb (fun kv : str * str => str_eqb (fst kv) k0) (acc ++ [(k, v)]) = existsb (str_eqb k0) (k :: seen)).
+      { intros k0. rewrite existsb_app. cbn [existsb fst]. rewrite Hinv.
+        rewrite orb_false_r, orb_comm, (ParserRoundTrip.str_eqb_sym k k0). reflexivity. }
+      destruct (IH (acc ++ [(k, v)]) (k :: seen) R HR Hat Hv2 Hf2 Hinv') as [f0 H0].
+      exists (S f0). intros f Hf0. destruct f as [|f]; [lia|].
+      assert (HL : exists x L, AT' annots ++ R = x :: L).
+      { destruct (AT' annots ++ R) as [|x L] eqn:E; [|exists x, L; reflexivity].
+        apply app_eq_nil in E. destruct E as [_ E]. contradiction. }
+      destruct HL as (x & L & EL).
+      cbn [AT' flat_map]. fold (AT' annots). unfold ann_toks. cbn [fst snd]. rewrite <- app_assoc. cbn [app]. rewrite EL.
+      cbn [p_annotations]. cbv zeta.
+      change (tx (peek (mk (TOperator, s_of "@") :: key_tok k :: mk (TOperator, s_of "(") :: mk (TString, QS v) :: mk (TOperator, s_of ")") :: x :: L)) "@") with true.
+      cbn [negb]. rewrite !adv_cons2.
+      change (peek (key_tok k :: mk (TOperator, s_of "(") :: mk (TString, QS v) :: mk (TOperator, s_of ")") :: x :: L)) with (key_tok k).
+      assert (Hk : is_ident (key_tok k) || is_reserved_tok (key_tok k) = true).
+      { unfold key_tok, retype. cbn [fst snd]. destruct (is_reserved k); reflexivity. }
+      rewrite Hk. cbn [negb].
+      change (exact (mk (TOperator, s_of "(") :: mk (TString, QS v) :: mk (TOperator, s_of ")") :: x :: L) "(")
+        with (Some (mk (TString, QS v) :: mk (TOperator, s_of ")") :: x :: L)).
+      assert (Ekt : t_text (key_tok k) = k).
+      { unfold key_tok, retype. cbn [fst snd]. destruct (is_reserved k); reflexivity. }
+      rewrite Ekt, Hinv, Hf1.
+      change (peek (mk (TString, QS v) :: mk (TOperator, s_of ")") :: x :: L)) with (mk (TString, QS v)).
+      change (is_string (mk (TString, QS v))) with true. cbn [negb].
+      change (t_text (mk (TString, QS v))) with (QS v).
+      rewrite (ParserRoundTrip.sv_quote is_printable is_gext v Hv1). rewrite adv_cons2.
+      change (exact (mk (TOperator, s_of ")") :: x :: L) ")") with (Some (x :: L)).
+      rewrite <- EL. rewrite H0 by lia. rewrite <- app_assoc. reflexivity.
+  Qed.
+
+  Lemma R_head : forall p rest, exists h tl,
+    toks_of (PI [] p) ++ rest = mk h :: tl /\ tx (mk h) "@" = false /\ (t_type (mk h) = TIdent).
+  Proof.
+    intros p rest. rewrite ParserRoundTrip.policy_toks. unfold ParserRoundTrip.PT. cbn [ParserRoundTrip.AT map flat_map app].
+    destruct (p_effect p); eexists _, _; (split; [reflexivity | split; reflexivity]).
+  Qed.
+
+  Lemma policy_parse' : forall annots p rest, policy_ok set_order annots p = true -> rest <> [] ->
+    exists f0, forall f, (f0 <= f)%nat ->
+      p_policy f (AT' annots ++ toks_of (PI [] p) ++ rest)
+      = POk {| pp_annots := annots; pp_pos := (0, 0, 0); pp_policy := norm_policy set_order print_ip p |} rest.
+  Proof.
+    intros annots p rest Hok Hrest.
+    destruct (ParserRoundTrip.parse_print_policy is_printable is_gext set_order print_ip extra print_ip_plain [] p rest
+                (policy_ok_nil _ _ Hok) Hrest) as [f1 H1].
+    destruct (R_head p rest) as (h & tl & ER & Hat & Hty).
+    set (R := toks_of (PI [] p) ++ rest) in *.
+    assert (HR : R <> []) by (rewrite ER; discriminate).
+    unfold policy_ok in Hok. apply andb_true_iff in Hok. destruct Hok as [Hok _]. apply andb_true_iff in Hok. destruct Hok as [Hok _].
+    apply andb_true_iff in Hok. destruct Hok as [Hok _]. apply andb_true_iff in Hok. destruct Hok as [Han _].
+    unfold annots_ok in Han. apply andb_true_iff in Han. destruct Han as [Hdist Hvals].
+    assert (Hv : forallb (fun kv : str * str => str_ok2 (snd kv)) annots = true).
+    { apply forallb_forall. intros kv Hkv. rewrite forallb_forall in Hvals. specialize (Hvals kv Hkv).
+      apply andb_true_iff in Hvals. apply Hvals. }
+    rewrite ParserRoundTrip.distinct_keys_fresh in Hdist.
+    destruct (annots_parse annots [] [] R HR ltac:(rewrite ER; exact Hat) Hv Hdist ltac:(intros k; reflexivity)) as [f2 H2].
+    exists (S (f1 + f2)). intros f Hf. destruct f as [|f]; [lia|].
+    rewrite p_policy_cont, H2 by lia. cbn [bind app].
+    rewrite (pcont_annots (S f) _ (peek R) annots R).
+    specialize (H1 (S f) ltac:(lia)). rewrite p_policy_cont in H1.
+    rewrite p_annotations_none in H1 by (rewrite ER; exact Hat). cbn [bind] in H1. rewrite H1. cbn [set_ann pp_policy].
+    assert (Hpos : forall first, first = peek (AT' annots ++ R) -> (t_off first, t_line first, t_col first) = (0, 0, 0)).
+    { intros first ->. destruct annots as [|kv annots]; [cbn [AT' flat_map app]; rewrite ER; reflexivity | reflexivity]. }
+    rewrite (Hpos _ eq_refl). reflexivity.
+  Qed.
+
+  Definition dtoks' (ps : list (list (str * str) * policy)) : list token :=
+    flat_map (fun ap => AT' (fst ap) ++ toks_of (PI [] (snd ap))) ps ++ [eof_token].
+
+  Lemma policies_parse' : forall ps acc, Forall (fun ap => policy_ok set_order (fst ap) (snd ap) = true) ps ->
+    exists f0, forall f, (f0 <= f)%nat ->
+      p_policies f (dtoks' ps) acc
+      = POk (acc ++ map (ParserRoundTrip.doc_result set_order print_ip) ps) [eof_token].
+  Proof.
+    induction ps as [|[an p] ps IH]; intros acc Hok.
+    - exists 1%nat. intros f Hf. destruct f as [|f]; [lia|]. cbn [map]. rewrite app_nil_r. reflexivity.
+    - inversion Hok as [|ap ps' Hp Hps]; subst. cbn [fst snd] in Hp.
+      assert (Hne : dtoks' ps <> []).
+      { unfold dtoks'. intros E. apply app_eq_nil in E. destruct E as [_ E]. discriminate E. }
+      destruct (policy_parse' an p (dtoks' ps) Hp Hne) as [f1 H1].
+      destruct (IH (acc ++ [ParserRoundTrip.doc_result set_order print_ip (an, p)]) Hps) as [f2 H2].
+      exists (S (f1 + f2)). intros f Hf. destruct f as [|f]; [lia|].
+      assert (E : dtoks' ((an, p) :: ps) = AT' an ++ toks_of (PI [] p) ++ dtoks' ps).
+      { unfold dtoks'. cbn [flat_map fst snd]. rewrite <- !app_assoc. reflexivity. }
+      rewrite E. cbn [p_policies].
+      assert (Hhd : t_type (peek (AT' an ++ toks_of (PI [] p) ++ dtoks' ps)) = TOperator
+                    \/ t_type (peek (AT' an ++ toks_of (PI [] p) ++ dtoks' ps)) = TIdent).
+      { destruct an as [|kv an]; [right | left; reflexivity].
+        cbn [AT' flat_map app]. destruct (R_head p (dtoks' ps)) as (h & tl & -> & _ & Hty). exact Hty. }
+      unfold bind. rewrite H1 by lia. cbn [map]. rewrite <- app_assoc in H2. cbn [app] in H2.
+      destruct Hhd as [-> | ->]; apply H2; lia.
+  Qed.
+
+  (* print to bytes, tokenize, parse: the policies come back up to the text normal form - for every policy_ok input *)
+  Theorem text_roundtrip_document_gen : forall sep ps, all_ws sep ->
+    Forall (fun ap => policy_ok set_order (fst ap) (snd ap) = true) ps ->
+    exists f0, forall f, (f0 <= f)%nat -> exists ts,
+      spec_tokenize f (render (doc_items is_printable is_gext set_order print_ip extra sep ps)) = Some (Some ts) /\
+      exists res last, p_policies f ts [] = POk res [last] /\ t_type last = TEOF /\
+        map (fun pp => (pp_annots pp, pp_policy pp)) res = map (fun ap => (fst ap, norm_policy set_order print_ip (snd ap))) ps.
+  Proof.
+    intros sep ps Hsep Hok.
+    destruct (lex_render_document_gen is_printable is_gext set_order print_ip extra print_ip_plain sep ps Hsep Hok) as [f1 H1].
+    destruct (policies_parse' ps [] Hok) as [f2 H2].
+    exists (f1 + f2)%nat. intros f Hf. destruct (H1 f ltac:(lia)) as (ts & Etok & Ets). exists ts. split; [exact Etok|].
+    specialize (H2 f ltac:(lia)).
+    assert (Hn : map nrm ts = dtoks' ps).
+    { unfold nrm. rewrite <- (map_map strip mk), Ets, map_app. unfold dtoks'. f_equal.
+      clear -Hok print_ip_plain. induction Hok as [|ap ps Hap _ IH]; [reflexivity|].
+      cbn [flat_map]. rewrite !map_app, IH. f_equal. apply retoks_policy. exact Hap. }
+    pose proof (p_policies_map f ts []) as Hp. cbn [map] in Hp. rewrite Hn, H2 in Hp. cbn [app] in Hp.
+    destruct (p_policies f ts []) as [res rest| |]; cbn [emap_l] in Hp; try discriminate Hp.
+    injection Hp as Hres' Hrest.
+    destruct rest as [|last [|x rest']]; try discriminate Hrest.
+    exists res, last. split; [reflexivity|]. split.
+    - assert (Hl : nrm last = eof_token) by (cbn [map] in Hrest; congruence). apply (f_equal t_type) in Hl. exact Hl.
+    - apply (f_equal (map (fun pp => (pp_annots pp, pp_policy pp)))) in Hres'. rewrite !map_map in Hres'.
+      cbn [zp pp_annots pp_policy ParserRoundTrip.doc_result] in Hres'. symmetry. exact Hres'.
+  Qed.
+End TextRoundTripGen.
+
+(* ------------------------------------------------------------------------------------------------------------- *)
+(* 8. A boolean checker for [lexk] (sound): lets a test evaluate lexability of any concrete rendering              *)
+(* ------------------------------------------------------------------------------------------------------------- *)
+Fixpoint span_hex (s : str) : str * str :=
+  match s with
+  | [] => ([], [])
+  | h :: r => if is_hex h then (h :: fst (span_hex r), snd (span_hex r)) else ([], s)
+  end.
+
+Lemma span_hex_spec : forall s, s = fst (span_hex s) ++ snd (span_hex s) /\ Forall (fun h => is_hex h = true) (fst (span_hex s)).
+Proof.
+  induction s as [|h r [IH1 IH2]]; [split; [reflexivity | constructor]|].
+  cbn [span_hex]. destruct (is_hex h) eqn:E; cbn [fst snd app].
+  - split; [f_equal; exact IH1 | constructor; assumption].
+  - split; [reflexivity | constructor].
+Qed.
+
+Fixpoint sbodyb (fuel : nat) (s : str) : bool :=
+  match fuel with
+  | O => false
+  | S f =>
+    match s with
+    | [] => true
+    | b :: r =>
+      if b =? 92 then
+        match r with
+        | [] => false
+        | c :: r' =>
+          if existsb (Z.eqb c) esc_chars then sbodyb f r'
+          else if c =? 117 then
+            match r' with
+            | [] => false
+            | c2 :: r2 =>
+              (c2 =? 123) && Nat.leb 1 (length (fst (span_hex r2))) && Nat.leb (length (fst (span_hex r2))) 6 &&
+              match snd (span_hex r2) with
+              | [] => false
+              | c4 :: r4 => (c4 =? 125) && sbodyb f r4
+              end
+            end
+          else if c =? 120 then
+            match r' with
+            | h1 :: h2 :: r2 => is_hex h1 && is_hex h2 && sbodyb f r2
+            | _ => false
+            end
+          else false
+        end
+      else if b <? 128 then (0 <? b) && negb (b =? 34) && negb (b =? 10) && sbodyb f r
+      else negb ((fst (decode_rune s) =? rune_error) && Nat.leb (snd (decode_rune s)) 1) && sbodyb f (skipn (snd (decode_rune s)) s)
+    end
+  end.
+
+Lemma sbodyb_sound : forall fuel s, nonneg s -> sbodyb fuel s = true -> sbody s.
+Proof.
+  induction fuel as [|f IH]; intros s Hnn H; [discriminate H|].
+  destruct s as [|b r]; [constructor|]. cbn [sbodyb] in H.
+  assert (Hr : nonneg r) by (inversion Hnn; assumption).
+  destruct (Z.eqb_spec b 92) as [->|Hb92].
+  - destruct r as [|c r']; [discriminate H|].
+    assert (Hr' : nonneg r') by (inversion Hr; assumption).
+    destruct (existsb (Z.eqb c) esc_chars) eqn:Ec.
+    { change (92 :: c :: r') with ([92; c] ++ r'). constructor; [apply su_esc, in_esc; exact Ec | apply IH; assumption]. }
+    destruct (Z.eqb_spec c 117) as [->|Hc117].
+    { destruct r' as [|c2 r2]; [discriminate H|].
+      destruct (span_hex_spec r2) as [Es Hh]. destruct (span_hex r2) as [hs r3]. cbn [fst snd] in *.
+      apply andb_true_iff in H. destruct H as [H H4]. apply andb_true_iff in H. destruct H as [H H3].
+      apply andb_true_iff in H. destruct H as [H1 H2]. apply Z.eqb_eq in H1. subst c2.
+      apply Nat.leb_le in H2. apply Nat.leb_le in H3.
+      destruct r3 as [|c4 r4]; [discriminate H4|]. apply andb_true_iff in H4. destruct H4 as [H5 H6].
+      apply Z.eqb_eq in H5. subst c4. subst r2.
+      assert (Hr4 : nonneg r4).
+      { inversion Hr' as [|x y _ Hy]; subst. apply nonneg_app_r in Hy. inversion Hy; assumption. }
+      replace (92 :: 117 :: 123 :: hs ++ 125 :: r4) with (([92; 117; 123] ++ hs ++ [125]) ++ r4)
+        by (repeat rewrite <- app_assoc; reflexivity).
+      constructor; [apply su_u; [lia | exact Hh] | apply IH; assumption]. }
+    destruct (Z.eqb_spec c 120) as [->|Hc120]; [|discriminate H].
+    destruct r' as [|h1 [|h2 r2]]; try discriminate H.
+    apply andb_true_iff in H. destruct H as [H H3]. apply andb_true_iff in H. destruct H as [H1 H2].
+    change (92 :: 120 :: h1 :: h2 :: r2) with ([92; 120; h1; h2] ++ r2).
+    constructor; [apply su_x; assumption | apply IH; [|exact H3]].
+    inversion Hr' as [|x y _ Hy]; subst. inversion Hy; assumption.
+  - destruct (Z.ltb_spec b 128) as [Hb|Hb].
+    + apply andb_true_iff in H. destruct H as [H H4]. apply andb_true_iff in H. destruct H as [H H3].
+      apply andb_true_iff in H. destruct H as [H1 H2]. apply Z.ltb_lt in H1. apply negb_true_iff in H2, H3.
+      apply Z.eqb_neq in H2, H3.
+      change (b :: r) with ([b] ++ r). constructor; [apply su_ascii; [lia | assumption..] | apply IH; assumption].
+    + apply andb_true_iff in H. destruct H as [H1 H2]. apply negb_true_iff in H1.
+      destruct (decode_rune (b :: r)) as [ch w] eqn:Hd. cbn [fst snd] in *.
+      destruct (decode_rune_inv _ _ _ Hnn Hd H1) as (Hv & rest & Es & Hw).
+      rewrite Es, Hw, skipn_app_length in H2. rewrite Es.
+      assert (Hch : 128 <= ch).
+      { destruct (encode_rune_bytes ch Hv) as [[Hlt E1] | [Hge _]]; [|exact Hge].
+        rewrite E1 in Es. cbn [app] in Es. injection Es as Eb _. lia. }
+      constructor; [apply su_rune; assumption | apply IH; [|exact H2]].
+      rewrite Es in Hnn. exact (nonneg_app_r _ _ Hnn).
+Qed.
+
+Definition lexemeb (strict : bool) (ty : toktype) (text : str) : bool :=
+  match ty with
+  | TIdent => ident_shapeb text && (negb strict || negb (is_reserved text))
+  | TReserved => ident_shapeb text && is_reserved text
+  | TInt => negb (match text with [] => true | _ => false end) && forallb is_num text
+  | TString =>
+      match text with
+      | q :: r =>
+        match rev r with
+        | q' :: body_rev =>
+            (q =? 34) && (q' =? 34) && forallb (fun b => 0 <=? b) (rev body_rev)
+            && sbodyb (S (length body_rev)) (rev body_rev)
+        | [] => false
+        end
+      | [] => false
+      end
+  | TOperator => existsb (str_eqb text) op_texts
+  | TEOF | TUnknown => false
+  end.
+
+Lemma lexemeb_sound : forall st ty text, lexemeb st ty text = true -> lexeme st ty text.
+Proof.
+  intros st ty text H. destruct ty; cbn [lexemeb lexeme] in *; try discriminate H.
+  - apply andb_true_iff in H. destruct H as [H1 H2]. split; [apply ident_shapeb_ok; exact H1|].
+    intros ->. cbn [negb orb] in H2. apply negb_true_iff in H2. exact H2.
+  - apply andb_true_iff in H. destruct H as [H1 H2]. split; [|exact H2]. destruct text; [discriminate H1 | discriminate].
+  - apply andb_true_iff in H. destruct H as [H1 H2]. split; [apply ident_shapeb_ok; exact H1 | exact H2].
+  - destruct text as [|q r]; [discriminate H|]. destruct (rev r) as [|q' body_rev] eqn:Er; [discriminate H|].
+    apply andb_true_iff in H. destruct H as [H H4]. apply andb_true_iff in H. destruct H as [H H3].
+    apply andb_true_iff in H. destruct H as [H1 H2]. apply Z.eqb_eq in H1, H2. subst q q'.
+    exists (rev body_rev). split.
+    + f_equal. rewrite <- (rev_involutive r), Er. reflexivity.
+    + apply (sbodyb_sound _ _ ltac:(apply Forall_forall; intros x Hx; rewrite forallb_forall in H3; apply Z.leb_le, H3, Hx) H4).
+  - apply existsb_exists in H. destruct H as (x & Hx & E). apply str_eqb_eq in E. subst x. exact Hx.
+Qed.
+
+Fixpoint lexkb (strict : bool) (l : list item) (c : Z) : bool :=
+  match l with
+  | [] => true
+  | Sp t :: r => forallb is_ws t && lexkb strict r c
+  | T ty t :: r => lexemeb strict ty t && sepb ty t (nextb (render r) c) && lexkb strict r c
+  end.
+
+Lemma lexkb_sound : forall st l c, lexkb st l c = true -> lexk st l c.
+Proof.
+  intros st l c. induction l as [|[ty t|t] r IH]; intros H; [exact I | |]; cbn [lexkb lexk] in *.
+  - apply andb_true_iff in H. destruct H as [H H3]. apply andb_true_iff in H. destruct H as [H1 H2].
+    split; [apply lexemeb_sound; exact H1 | split; [exact H2 | exact (IH H3)]].
+  - apply andb_true_iff in H. destruct H as [H1 H2]. split; [|exact (IH H2)].
+    apply Forall_forall. intros x Hx. rewrite forallb_forall in H1. exact (H1 x Hx).
+Qed.
+
+(* any item list that passes the check lexes back to its own tokens *)
+Theorem lex_render_checked : forall l, lexkb true l rune_eof = true ->
+  exists f0, forall f, (f0 <= f)%nat -> exists ts,
+    spec_tokenize f (render l) = Some (Some ts) /\ map strip ts = toks l ++ [(TEOF, [])].
+Proof. intros l H. apply lex_render_strict, lexkb_sound. exact H. Qed.
+
+(* the checker accepts a typical rendering (non-ASCII text, escapes, every operator class) *)
+Example lexkb_example :
+  lexkb true (expr_items (fun r => negb (r =? 7)) (fun _ => false) (fun l => seq 0 (length l)) (fun _ _ _ => []) (fun _ => false)
+     (EAnd (EEq (EAccess (EVar VPrincipal) (s_of "name")) (ELit (VString [206; 187; 7; 34; 10; 120])))
+           (ELt (ENeg (ELit (VLong 3))) (ELit (VLong (-5)))))) rune_eof = true.
+Proof. vm_compute. reflexivity. Qed.
+
 Print Assumptions lex_render_generic.
 Print Assumptions lex_render_strict.
 Print Assumptions lex_render_expr.
@@ -1780,3 +2182,5 @@ Print Assumptions lex_render_document_gen.
 Print Assumptions lex_render_document_ws.
 Print Assumptions lex_render_policy_counterexample.
 Print Assumptions text_roundtrip_document.
+Print Assumptions text_roundtrip_document_gen.
+Print Assumptions lex_render_checked.
